@@ -8,7 +8,7 @@
  * KSI_snprintf(buf + count, len - count, ...) calls whose offsets `count` are sums of string lengths.  For
  * CBMC those lengths are symbolic values, and stores at symbolic offsets into a 64 KiB array exhaust memory
  * (measured; array theory does not help).  The model therefore keeps the formatted text in a small side array
- * (C20_TEXT_MAX characters) keyed by the destination object: the first call on a new destination object
+ * (C20_TEXT_MAX characters) keyed by the destination object (strlen() on that object is answered from the side array too): the first call on a new destination object
  * records it as the base; every call writes its output at offset (buf - base) of the side array.  The
  * destination object itself only receives its very first character (so that "is the buffer non-empty" tests
  * still see the truth); all other bytes of it stay unconstrained.  Harness stubs that are handed a pointer by
@@ -97,6 +97,26 @@ int vsnprintf(char *buf, size_t n, const char *fmt, va_list ap) {
 		if (fresh) buf[0] = c20_text[0];                /* the destination object itself only gets its first character */
 	}
 	return (int)pos;
+}
+
+/* strlen on a composed buffer answers from the text store (net_async.c tests strlen(addr)); on any other object it is
+ * the plain loop (bounded by C20_STRLEN_MAX, asserted) */
+#ifndef C20_STRLEN_MAX
+#define C20_STRLEN_MAX 70
+#endif
+size_t strlen(const char *s) {
+	size_t len = 0; int end = 0;
+	if (c20_base != NULL && __CPROVER_same_object(s, c20_base)) {
+		__CPROVER_assert(s >= c20_base, "vsnprintf model domain: text is read at or after the start of the composition");
+		size_t off = (size_t)(s - c20_base);
+		for (unsigned i = 0; i < C20_TEXT_MAX; i++) if (!end) { if (off + i >= C20_TEXT_MAX || c20_text[off + i] == 0) end = 1; else len++; }
+	} else {
+		for (unsigned i = 0; i < C20_STRLEN_MAX + 1; i++) if (!end) {
+			if (s[i] == 0) end = 1;
+			else { __CPROVER_assert(i < C20_STRLEN_MAX, "strlen model: string within the modelled length"); len++; }
+		}
+	}
+	return len;
 }
 
 void C20_fmt_text(const char *p, char *out, unsigned max) {
